@@ -39,6 +39,9 @@ IMPORTS: Dict[str, List[Import]] = {
          'solver state that survives from an earlier shot makes the trajectory the solution for another shot\'s data'),
         ('C18', ('C18.R1',), r'gravity',
          'gravity of the statement is the configured constant, unscaled'),
+        ('C18', ('C18.R1', 'C18.R3'), r'calc_step|step',
+         'convergence "as the maximum integration step is refined" needs the configured step to reach the time step of the loop, '
+         'and the step to bound the advance'),
     ],
     'C02': [
         ('C10', ('C10.R2',), TC,
@@ -56,6 +59,11 @@ IMPORTS: Dict[str, List[Import]] = {
          'the first row is the muzzle state: time 0, muzzle velocity along the barrel, the canted sight-height offset'),
         ('C11', ('C11.R1',), None,
          'a loop bound or state that depends on the recording schedule drops or moves the row at the requested range'),
+        ('C10', ('C10.R2',), TC,
+         'the first row is the muzzle state of this shot: solver state kept from an earlier shot (velocity, curve) is not'),
+        ('C18', ('C18.R3',), None,
+         'one row at each multiple needs every integration step to advance by no more than the configured step, which the '
+         'recording step is at least as large as'),
         ('C15', ('C15.R2',), r'\[(mach|zero|clear-order|history)',
          'an event check that overwrites the row flag instead of or-ing it drops the range row due at the same sample'),
     ],
@@ -73,6 +81,8 @@ IMPORTS: Dict[str, List[Import]] = {
         ('C10', ('C10.R2',), TC,
          'weight, length, diameter, twist and the drag curve the columns are computed from must be those of this shot'),
         ('C09', ('C09.R3',), None, 'the Mach list and curve wired into the solver are those of this shot\'s drag model'),
+        ('C08', ('C08.R2',), r'Atmo\.get_density_factor_and_mach_for_altitude|machK|machF|machC',
+         'Mach of a row is its speed over the local speed of sound at the row\'s altitude, which this routine supplies'),
     ],
     'C06': [
         ('C13', ('C13.R1',), r'memo:|convert-recomputes',
@@ -94,6 +104,10 @@ IMPORTS: Dict[str, List[Import]] = {
         ('C01', ('C01.R1',), r'\[step:vel',
          'the retardation the solver applies is Cd(Mach) K / BC at the air-relative Mach number of the step'),
     ],
+    'C10': [
+        ('C18', ('C18.R1',), r'interface\.py',
+         'a calculator whose solver or settings are rebuilt by a later call answers differently when long used than when fresh'),
+    ],
     'C11': [
         ('C03', ('C03.R4', 'C03.R5', 'C03.R7'), None,
          'what happens to a sample after the filter hands it back (merged, dropped, rebuilt after the loop) decides '
@@ -104,6 +118,8 @@ IMPORTS: Dict[str, List[Import]] = {
     'C12': [
         ('C10', ('C10.R2', 'C10.R3'), r'_WindSock|Wind\b|winds|_NO_WIND|conditions\.py\|Shot',
          'a wind sock or wind object shared between shots or calls applies another shot\'s segments'),
+        ('C18', ('C18.R1',), r'calc_step',
+         'a step that is re-derived per shot (from its winds, say) makes a segment beyond a distance change the rows before it'),
         ('C07', ('C07.R1',), r'conditions\.py\|Wind',
          'a zero until-distance given as a bare number is that distance'),
     ],
